@@ -69,6 +69,10 @@ def run(ctx):
                 cfg["force_repop"] = True
                 cfg["limit"] = max(cfg["limit"], 3)
             cfgs.append(cfg)
+            if i % 4 == 1:
+                # the SAME data, generator state and hyper-parameters fitted again in this process with the OTHER
+                # estimator (the same member sets recur): what was computed for one flag must not serve the other
+                cfgs.append(dict(cfg, biased=not cfg["biased"], refit_other_estimator=True))
 
     # ---------------- (a) helper vs rational model
     lines = [f"clusterstats {1 if c['biased'] else 0} {c['d']} {show_list(c['members'])} "
